@@ -15,6 +15,7 @@ C08.f trailer framing (symbolic lengths): in PackHeader::from_file and check_pac
   exactly LENGTH_LEN bytes, the slice handed to decrypt has exactly the length stored in that field on every path
   (header already read / re-read), and the ranged reads end at the end of the pack.
 C08.g the index entry of a pack is stored as handed over (Indexer::add_with does not mutate its IndexPack).
+C08.k an index entry rebuilt from a re-read pack header (repair index, checked index) lists every blob of that header.
 C08.j reader limits: a constant upper limit on the header length in PackHeader::from_file is at least the largest header the
   packer writes (COMP_OVERHEAD + MAX_COUNT * max entry length); take_data resets the running size (offsets restart at 0).
 C08.e reader side: PackHeader::from_file compares the decoded header's size with the trailer length and its pack_size
@@ -245,6 +246,9 @@ def run(ctx, rep):
         idstore = [s for blk in PR.blocks for s in blk["s"] if s[0] == "=" and place_has_field(s[1], "id", "indexfile::IndexPack")]
         okp = 2 in ida["args"] and 2 in ca["args"] and len(idstore) >= 1
     rep.check("C08.d", "process-writes-under-that-id", okp, where=PR.loc(), what="process writes the file under the id from the pipeline item and stores that id in the index entry")
+    # the reader through which the pack's bytes are hashed (and copied) covers the whole list (C20.d)
+    from rules import C20
+    C20.reader_no_gap_rule(ctx, rep, "C08.d")
     # ---- C08.e -------------------------------------------------------------------------------------
     FF = prog.find1(r"^rustic_core::repofile::packfile::PackHeader::from_file$")
     okret = [bi for bi, blk in enumerate(FF.blocks) for s in blk["s"] if s[0] == "=" and s[1] == [0] and s[2][0] == "agg" and s[2][1][0] == "adt" and s[2][1][2] == "Ok"]
@@ -287,6 +291,31 @@ def run(ctx, rep):
     n_ = borrow(rep, ctx, C16, lambda o: o.rule == "C16.c" and "repair::index" in o.key, "C08.i")
     rep.floor("C08.i", "borrowed obligations", n_, 1)
     reader_limits_rule(ctx, rep, "C08.j")
+    # ---- C08.k: an index entry rebuilt from a pack header lists ALL blobs of that header ---------------------------------------
+    rep.rule("C08.k", "index entries rebuilt from a re-read pack header list every blob of the header (no filtering / de-duplication)")
+    DROPV = re.compile(r"Vec::<T, A>::(retain|retain_mut|dedup|dedup_by|dedup_by_key|truncate|drain|pop|remove|swap_remove|split_off|clear)$|Iterator::(filter|filter_map|skip|take|step_by|take_while|skip_while)$")
+    nk = 0
+    for b in prog.by_crate["rustic_core"]:
+        if not b.path.startswith("rustic_core::commands::repair::index::"):
+            continue
+        for bi, blk in enumerate(b.blocks):
+            for s_ in blk["s"]:
+                if s_[0] == "=" and s_[2][0] == "agg" and s_[2][1][0] == "adt" and s_[2][1][1].endswith("indexfile::IndexPack") and "blobs" in s_[2][1][3]:
+                    op = s_[2][2][s_[2][1][3].index("blobs")]
+                    pl = op_place(op)
+                    if pl is None:
+                        continue
+                    sl = flow.backward_slice(b, pl)
+                    if not any(c.endswith("PackHeader::into_blobs") for c in sl["calls"]):
+                        continue
+                    nk += 1
+                    aliases, consumers, _ = flow.forward_aliases(b, flow.base_local(b, pl))
+                    drops = sorted({callee_decl(ct).rsplit("::", 1)[-1] for (cb, ct, ai) in consumers if ai == 0 and (DROPV.search(callee(ct)) or DROPV.search(callee_decl(ct)))} |
+                                   {c.rsplit("::", 1)[-1] for c in sl["calls"] if DROPV.search(c)})
+                    rep.check("C08.k", f"{fn_key(b)}/blobs-of-header-unfiltered/{nk}", not drops, where=span_str(s_[3]),
+                              what=f"{fn_key(b)}: the rebuilt index entry takes the header's blob list as it is" if not drops else
+                                   f"{fn_key(b)}: the blob list of a re-read pack header is reduced ({drops}) before it becomes the index entry: index entry and pack header (and the pack size computed from the entry) disagree")
+    rep.floor("C08.k", "index entries rebuilt from pack headers", nk, 1)
     # ---- C08.h: sizes computed from index data add up the length of EACH entry (entries of one pack may differ: a pack
     # can mix compressed and uncompressed blobs, e.g. after a fast repack across a compression change)
     rep.rule("C08.h", "computed header/pack sizes sum the individual entry lengths")
